@@ -151,6 +151,8 @@ class STensor(object):
         self.tid = next(_ids)
         self.name = None
         self.grad = None
+        if EX is not None:
+            EX.tensors[self.tid] = self
 
     # ---- structure
     @property
@@ -283,6 +285,8 @@ def derive(out, *ins, differentiable=True, view_of=None):
     else:
         out.deps = frozenset()
         out.grad_cut = cut or bool(deps)
+        if deps and EX is not None:
+            EX.grad_cuts.append(('non-differentiable step', getattr(EX, 'cur_where', lambda: '?')()))
     out.is_leaf = not out.deps
     if view_of is not None:
         out.storage.members.remove(out)
@@ -1014,7 +1018,8 @@ def setitem(t, index, value):
         return ite(c, rhs(vidx), old(idx))
     t._val = val
     if isinstance(value, STensor):
-        t.deps = t.deps | value.deps
+        t.deps = t.deps | value.deps | (frozenset([value.tid]) if value.requires_grad and value.is_leaf else frozenset())
+        t.is_leaf = not t.deps
 
 
 # ------------------------------------------------------------------------------------------------
